@@ -258,6 +258,22 @@ CLAIMED["C10"] = dict(
          "across the pause (tank heads, statuses, leak status) -- covered by the behavioural comparison only; Newton's fresh initial guess.",
     technique="Coq proof (induction over iterated steps with fuel monotonicity) + exact trace correspondence + behavioural differential")
 
+CLAIMED["C06"] = dict(
+    text="Proof: for a cylindrical tank the head update of update_tank_heads changes the stored volume by exactly (net inflow) x (elapsed "
+         "time), over one and several steps; the whole-second backtrack floor((cur - thr) A / q) of TankLevelCondition puts the level on "
+         "the crossing side of the threshold with an overshoot strictly below one second of the tank's flow, rising and falling (Flocq "
+         "Zfloor) -- this is what keeps levels within [min, max] up to about two seconds of flow, since the min/max closures are "
+         "such threshold controls. Ties decided inside coqc by interval arithmetic on the reported tables of real runs with every solved "
+         "step reported: (head2-head1) pi d^2/4 = demand1 (t2-t1) for every pair of consecutive steps of every tank; first head = "
+         "elevation + init_level. Observed on the same runs: levels within the limits +- 2 s of flow, no discharge at min level, no "
+         "filling at max level. Generated networks drive small tanks to both limits with pumps/CV pipes at the tank and user controls "
+         "of every priority inside the limit step.",
+    ref="DESIGN.md section 5 C06",
+    note="Trusted: Coq kernel; stdlib real axioms (+ Flocq's Zfloor lemmas); coq-interval; harness. Partial: 'levels stay within limits' and "
+         "'no discharge at min' for the whole simulator are observations on generated runs backed by the per-threshold theorem, not a closed "
+         "proof over the control loop. Volume-curve tanks are a recorded finding (np.interp clamps), excluded from the sweep.",
+    technique="Coq proof (field identity, floor arithmetic over R) + interval-certified check of reported tank trajectories")
+
 NOT_YET = {
 }
 
